@@ -70,6 +70,7 @@ def pool_findings(repo, work, tier="quick", seed=1, extra_props=()):
         "    if not p['built']:\n"
         "        out['build_failed'].append(n); continue\n"
         "    if p['validation']['error']: out['errors'].append(n + ': ' + p['validation']['error'][-300:])\n"
+        "    for a in p.get('api_findings', []): out['findings'].setdefault(a[0], []).append('%%s: %%s' %% (n, a[1]))\n"
         "    for s, r in p['runs'].items():\n"
         "        out['drift'] += len(r['rejected'])\n"
         "        for f in r['findings']:\n"
